@@ -191,5 +191,20 @@ PROPS["C14"] = {
     "assumptions": ["initial states on which the input faults within 400 steps are skipped, as the statement only speaks of fault-free runs"],
 }
 
+PROPS["C13"] = {
+    "quick_secs": 12,
+    "thorough_secs": 180,
+    "min_evaluations": 100000,
+    "technique": "shadow-state monitor: executions in the reference interpreter with an 'assigned by this function' shadow; every reported constant and every Constants::eval result checked against the concrete state before each executed location",
+    "rule": "random IL functions in two modes: def-before-use (every scalar assigned in the entry block first; constants() must return Ok) and "
+            "unrestricted (Ok or Err accepted, never a panic); branches assigning different values, loops, loads, indirect branches, intrinsics, "
+            "one in eight with unreachable blocks. 6 executions of <=150 steps each: before each executed location every reported constant of a "
+            "scalar the function has assigned must equal the concrete value; operand expressions and random expressions over assigned scalars must "
+            "evaluate (Constants::eval) to None or the concrete value. Distinct = (mode, block count, back edge, constants reported, constants derived).",
+    "level_text": "Sampled functions and executions; the monitor judges every (location, scalar) report met by an execution.",
+    "level_note": "trusts harness/src/refinterp.rs; reports about scalars the function has not assigned in the current run are not judged (as the statement says)",
+    "assumptions": ["intrinsics with declared written scalars are executed as writes of those scalars; undeclared ones as no-ops", "an execution ends at an indirect branch"],
+}
+
 # properties not claimed, with the reason (everything else not in PROPS is 'not built yet')
 NOT_CLAIMED = {}
